@@ -277,6 +277,8 @@ def check(ctx):
     _c5(ctx)
     _c6(ctx)
     _c7(ctx)
+    from . import c11
+    c11._n4(ctx, ctx.func("accelforge/mapper/FFM/_pareto_df/fast_pareto.py", "_sfs_bnl_core", "C12-C8"), "C12-C8")  # window bookkeeping of the kernel behind every pruning step
 
 
 VARIANTS = [
